@@ -52,6 +52,16 @@ Theorem C04_every_thread_prefix_of_its_execution : forall cap opss sched t,
 Proof. exact multi_killed_trace_is_prefix_of_execution. Qed.
 Print Assumptions C04_every_thread_prefix_of_its_execution.
 
+Theorem C04_crashing_thread_among_others_is_complete : forall cap recss sched t ops,
+  t < length recss ->
+  wf_ops [] ops = true ->
+  nth t recss [] = concat (snd (ops_run [] ops)) ++ segv_flush (fst (ops_run [] ops)) ->
+  let Mk := mrun true cap sched (minit recss) in
+  mdone t Mk = nth t recss [] ->
+  match_recs (eager [] ops) (mfile t (mfinish Mk)) = true.
+Proof. exact multi_crashed_thread_is_complete. Qed.
+Print Assumptions C04_crashing_thread_among_others_is_complete.
+
 (* both variants at once: the file is the stored records plus `extra` (empty for the code as it is) *)
 Theorem C04_prefix_general : forall setup single cap recs sched,
   let s := run single cap sched (start setup recs) in
